@@ -21,8 +21,16 @@ def split_lines(t):
     return out
 
 
+STATE_PROGRAMS = [["-m", "wP", "-c", "e", "-m", "yy"], ["-m", '"Ayiw', "-m", '$"ap'], ["-m", '"Ayiw', "-m", '$"ap', "-m", '"ayy'], ["-m", "pyy"],
+                  ["-m", "p", "-c", "$", "-m", "dd"], ["-m", '"bP', "-m", '"Byiw', "-m", '"bp', "-c", "$"], ["-m", "P", "-m", "yiw"], ["-m", ".", "-m", "x"],
+                  ["-m", "n", "-c", "e", "-m", "/a<CR>"], ["-m", ";", "-m", "fa", "-c", "e"], ["-m", "gv", "-m", "d", "-m", "vey"]]
+
+
 def gen_program(rng):
     r = rng.random()
+    if r < 0.2:
+        # a line reads some editor state (register text or kind, dot, search, f/t, last selection) before it writes it
+        return list(rng.choice(STATE_PROGRAMS))
     if r < 0.4:
         # register flow between lines: some lines only write a register, others read it first
         pat = rng.choice(["^f", "^k", "^a", "^x", "^l1", "^o", "^[a-z]+ [a-z]+$", "1", "^$"])
